@@ -287,6 +287,8 @@ def build_custom(m, rc):
 
     def nsd(s, a):
         i, j = si[s], ai[a]
+        if rc.get("eg") and m["abs"][i]:
+            return DictDistribution({})
         d = {sl[t]: m["P"][i][j][t] / m["PD"] for t in range(N) if m["P"][i][j][t] > 0 or zl[i][j][t]}
         if rare and (i, j) == (rare[0], rare[1]):
             d = {k: v * (1 - 1 / EPS_DEN) for k, v in d.items()}
@@ -380,6 +382,8 @@ def make_runs(rng, m, vstar, per_instance, fx=None, pair=None):
             rc["hnum"] = CONST_KINDS[rng.randrange(len(CONST_KINDS))]
         if rep["rep"] == "sparse":
             rc["zl"], rc["z0"] = no_zeros(m) if (fx and "rare" in fx) else sparse_zeros(rng, m)
+        if rep["rep"] == "sparse" and k % 2 == 0:
+            rc["eg"] = 1              # absorbing states list NO successors (empty next_state_dist)
         if fx:
             rc["fx"] = fx
         if pair:
@@ -600,6 +604,8 @@ def trace_record(m, rc, real, tag, vs):
         rec["lev"], rec["B"] = fx["lev"], fx["B"]
     if "rare" in fx:
         rec["rare"] = 1
+    if rc.get("eg") and rc["rep"]["rep"] == "sparse":
+        rec["eg"] = 1
     nodes = real.get("nodes", {})
     log = {"init": [s + 1 for s in real.get("init", [])],
            "ao": [[a + 1 for a in nodes[s]["ao"]] if s in nodes else [] for s in range(N)],
@@ -1039,6 +1045,21 @@ def ladder_case(rng):
     return {"gs": gs, "n": rng.randint(215, 260)}
 
 
+def quit_ladder_case(rng, lo, hi):
+    """A ladder whose rungs also have a `quit` action (to the goal at once, paying q < value of the first rung):
+    revised as a whole from the uniform policy, climbing becomes attractive one rung further from the top per
+    improvement round of msdm's inner policy iteration."""
+    case = ladder_case(rng)
+    case["n"] = rng.randint(lo, hi)
+    lv1 = F(0)
+    for k in range(case["n"]):
+        g = case["gs"][k % len(case["gs"])]
+        lv1 += max(F(g["P"][0][a][0] * g["R"][0][a][0] + g["P"][0][a][1] * g["R"][0][a][1], g["P"][0][a][1])
+                   for a in range(g["K"]) if g["avail"][0][a])
+    case["q"] = math.floor(lv1) - rng.randint(1, case["n"])
+    return case
+
+
 def run_ladder(case, rc):
     """The real LAOStar on the ladder; returns abstract results (rung index 0..n-1, goal = n)."""
     from msdm.algorithms.laostar import LAOStar
@@ -1050,11 +1071,14 @@ def run_ladder(case, rc):
     idx = {lab(k): k for k in range(n + 1)}
     al = [f"a{a}" for a in range(K)]
     ai = {a: i for i, a in enumerate(al)}
+    q = case.get("q", 0)
 
     def gad(k):
         return gs[k % G]
 
     def nsd(s, a):
+        if a == "quit":
+            return DictDistribution({lab(n): 1.0})
         k, j = idx[s], ai[a]
         if k == n:
             return DictDistribution({s: 1.0})
@@ -1065,12 +1089,15 @@ def run_ladder(case, rc):
         return DictDistribution(d)
 
     def reward(s, a, ns):
+        if a == "quit":
+            return float(q)
         k, j = idx[s], ai[a]
         if k == n:
             return 0.0
         return float(gad(k)["R"][0][j][0 if ns == s else 1])
     mdp = QuickMDP(next_state_dist=nsd, reward=reward,
-                   actions=lambda s: [al[a] for a in range(K) if idx[s] == n or gad(idx[s])["avail"][0][a]],
+                   actions=lambda s: [al[a] for a in range(K) if idx[s] == n or gad(idx[s])["avail"][0][a]]
+                   + (["quit"] if q and idx[s] != n else []),
                    initial_state_dist=DictDistribution({lab(0): 1.0}), is_absorbing=lambda s: idx[s] == n, discount_rate=1.0)
     try:
         with warnings.catch_warnings():
@@ -1082,6 +1109,7 @@ def run_ladder(case, rc):
     out = {"converged": bool(r.converged), "initial_value": float(r.initial_value),
            "svm": {idx[s]: float(v) for s, v in r.state_value_map.items()}}
     pol, polerr = {}, None
+    out["quits"] = []
     for k in range(n):                                   # every rung is reached with positive probability
         try:
             d = r.policy.action_dist(lab(k))
@@ -1089,6 +1117,10 @@ def run_ladder(case, rc):
             for a in d.support:
                 p = float(d.prob(a))
                 if p > 0:
+                    if a == "quit" and q:
+                        out["quits"].append(k)
+                        sup["quit"] = p
+                        continue
                     if a not in ai or not gad(k)["avail"][0][ai[a]]:
                         polerr = ("unavailable-action", k, repr(a)[:60])
                         break
@@ -1114,9 +1146,14 @@ def judge_ladders(ctx, cases, reals=None):
         gs, n = c["ladder"]["gs"], c["ladder"]["n"]
         polok = "error" not in o and o["polerr"] is None
         groups = {}
+        quits = len(o.get("quits", []))
         if polok:
             for k in range(n):
                 sup = o["pol"][k]
+                if "quit" in sup:
+                    if k == o["quits"][0]:
+                        break                             # nothing above the first quitting rung is reached
+                    continue
                 if any(abs(p - 1 / len(sup)) > 1e-9 for p in sup.values()):
                     polok = False
                     break
@@ -1124,7 +1161,10 @@ def judge_ladders(ctx, cases, reals=None):
                 groups[key] = groups.get(key, 0) + 1
         pols = [{"g": g + 1, "pol": [[1 if a in sup else 0 for a in range(gs[g]["K"])], [1] * gs[g]["K"]], "cnt": cnt}
                 for (g, sup), cnt in sorted(groups.items())] if polok else []
-        batch.append({"gs": gs, "n": n, "hc": c["rc"]["hc"], "pols": pols, "polok": 1 if polok else 0, "tag": i})
+        rec_ = {"gs": gs, "n": n, "hc": c["rc"]["hc"], "pols": pols, "polok": 1 if polok else 0, "tag": i, "quits": quits}
+        if c["ladder"].get("q"):
+            rec_["q"] = c["ladder"]["q"]
+        batch.append(rec_)
     res = run_tlc(ctx.workdir / "chain", MODULE, CFG_ORACLE + "INVARIANT InstanceOK\n", files={"batch.json": batch},
                   env={"BATCH_FILE": "batch.json", "MODE": "chain"})
     ctx.add_tlc(res, "chain: ladders of 215-260 rungs given structurally: exact rung values and exact return of the returned policy")
@@ -1143,6 +1183,11 @@ def judge_ladders(ctx, cases, reals=None):
             ok = False
             ctx.violation(f"C03:{site}:{shape}", f"{site}: {what}", {"ladder": c["ladder"], "rc": rc, "site": site})
         ctx.count("ladder_runs")
+        if "error" in o and o["etype"] == "AssertionError" and rec["over100"] == 1:
+            # predicate computed by the spec: the whole-ladder revision needs more improvement rounds than the
+            # library's documented default budget (dynamic_programming_iterations = 100)
+            ctx.violation(ROUNDS_SIG, ROUNDS_WHAT + f" ({n} rungs)", {"ladder": c["ladder"], "rc": rc, "site": "LAOStar.plan_on"})
+            continue
         if "error" in o:
             fail(f"LAOStar.plan_on[raised {o['etype']}]", f"raised {o['error']} on a valid instance (no convergence reported)")
             continue
@@ -1170,6 +1215,9 @@ def judge_ladders(ctx, cases, reals=None):
         if o["polerr"] is not None:
             kind, k, det = o["polerr"]
             fail(f"PlanningResult.policy[{kind}]", f"policy at reachable rung {k}: {kind} ({det})")
+        elif o.get("quits"):
+            fail("PlanningResult.policy[return]", f"the returned policy quits at rung {o['quits'][0]} (paying {c['ladder']['q']}) although "
+                                                  f"climbing on is worth {float(lv[o['quits'][0]])!r}")
         elif rec["ret"][1] == 0:
             ctx.count("policy_not_uniform_over_support_judge_skipped")
         elif rec["polopt"] != 1:
@@ -1183,6 +1231,11 @@ def judge_ladders(ctx, cases, reals=None):
             cc[key] = cc.get(key, 0) + 1
 
 
+ROUNDS_SIG = "C03:ExplicitStateGraph._policy_iteration[assert converged]:more-improvement-rounds-than-dynamic_programming_iterations"
+ROUNDS_WHAT = ("LAOStar.plan_on raises AssertionError (`assert converged` of the inner policy iteration) instead of reporting "
+               "non-convergence when one value revision needs more than dynamic_programming_iterations (default 100) improvement rounds")
+
+
 def make_ladder_cases(rng, k):
     out = []
     seeds = [0, -3, 5, 2 ** 66, -(2 ** 40), 11]
@@ -1191,6 +1244,10 @@ def make_ladder_cases(rng, k):
                     "rc": {"hc": rng.choice([0, 0, 1]), "hnum": CONST_KINDS[(i + rng.randrange(2)) % len(CONST_KINDS)],
                            "rao": FLAGS[i % 4][0], "rno": FLAGS[i % 4][1], "seed": seeds[i % len(seeds)],
                            "labels": "int" if i % 2 else "tuple"}})
+    # ladders with a quit action: two that need 30..95 improvement rounds, one that needs more than the default 100
+    for i, (lo, hi) in enumerate([(30, 60), (70, 95), (118, 135)] + [(30, 95)] * max(0, k // 3 - 2)):
+        out.append({"ladder": quit_ladder_case(rng, lo, hi),
+                    "rc": {"hc": 0, "hnum": CONST_KINDS[i % len(CONST_KINDS)], "rao": 0, "rno": 0, "seed": i, "labels": "int"}})
     return out
 
 
